@@ -516,7 +516,7 @@ def optimal_percolating_path(
                 start=start_point,
                 stop=stop_point,
             )
-        except nx.NetworkXNoPath:
+        except (nx.NetworkXNoPath, nx.NodeNotFound):
             continue
 
         cost = path.total_energy
